@@ -309,8 +309,12 @@ def main():
     mo_sp = run_chunked(driver, lines)
     known = load_known()
     internal = []
+    unmodelled = {}
     for i, line in enumerate(lines):
         ms = mo_sp[i]
+        if ms == "bad-op":
+            unmodelled[line.split(" ")[0]] = unmodelled.get(line.split(" ")[0], 0) + 1
+            continue
         if "\t" not in ms:
             internal.append(f"driver answered {ms!r} for {line!r}")
             continue
@@ -385,6 +389,7 @@ def main():
             "model_divergences": len(divergences), "spec_violations": len(violations),
             "known_findings_hit": {k: v["n"] for k, v in known_hits.items()},
             "configs": sorted(set(l.split(" ")[1] for l in lines)),
+            "ops_not_modelled": unmodelled,
             "exhaustive": False,
         },
         "assumptions": getattr(mod, "ASSUMPTIONS", []) + ["see DESIGN.md §6 (trusted base)"],
@@ -394,6 +399,8 @@ def main():
     if hasattr(mod, "evidence_extra"):
         ev["coverage"].update(mod.evidence_extra(ctx) or {})
     json.dump(ev, open(os.path.join(EVID, pid + ".json"), "w"), indent=1)
+    if unmodelled:
+        print("WARNING: operations sent by the generator but unknown to the Lean driver (skipped): " + ", ".join(f"{k}x{v}" for k, v in sorted(unmodelled.items())))
     if status == 0:
         print(f"OK property={pid} tier={tier} theorems={proof['discharged']}/{proof['obligations']} cases={len(lines)} evaluations={n_eval} wall={ev['wall_s']}s")
     sys.exit(status)
